@@ -66,7 +66,7 @@ def _run_conductor(study, batch, calls):
         cmod.sleep = saved
 
 
-def _run_cli(spec, root, batch, opts, dry, extra=None):
+def _run_cli(spec, root, batch, opts, dry, extra=None, prompt="-y"):
     """the same through the real command: `maestro run -fg -y [--dry] ...` (maestrowf.maestro.main())"""
     import contextlib
     import io
@@ -100,7 +100,9 @@ def _run_cli(spec, root, batch, opts, dry, extra=None):
     path = root + ".yaml"
     with open(path, "w") as f:
         yaml.safe_dump(doc, f, sort_keys=False)
-    args = ["maestro", "run", "-fg", "-y", "-s", "1", "-o", root, "-r", str(opts["rlimit"]), "-t", str(opts["throttle"])]
+    # `prompt`: how the launch question is answered (-y, -n, or not at all: a dry run does not ask)
+    args = ["maestro", "run", "-fg"] + ([prompt] if prompt else []) + \
+           ["-s", "1", "-o", root, "-r", str(opts["rlimit"]), "-t", str(opts["throttle"])]
     if opts["hash_ws"]:
         args.append("--hashws")
     if opts["use_tmp"]:
@@ -187,13 +189,18 @@ def dry_vs_real(ctx, k):
         ScriptAdapterFactory.factories[which] = counting
         ScriptAdapterFactory.factories["local"] = counting if which == "local" else S.make_counting(
             S._saved_local, calls)
+        dry_failed = None
+        prompt = rng.choice(["-y", "-y", "-n", None])
         try:
             if entry == "conductor":
                 ret_d, dag_d = _run_conductor(study_d, batch_of(which), calls)
             else:
-                ret_d, dag_d = _run_cli(spec, root_d, batch_of(which), opts, True)
-        except Exception as e:  # noqa  (staging errors such as workspace-before-generated: not C17)
-            return None
+                ret_d, dag_d = _run_cli(spec, root_d, batch_of(which), opts, True, prompt=prompt)
+        except Exception as e:  # noqa  (a staging error such as workspace-before-generated is not C17's:
+            # the real run below then fails the same way; if it does not, the dry run is at fault)
+            dry_failed = "%s: %s" % (type(e).__name__, e)
+            if entry == "conductor":
+                return None
         calls_d = list(calls)
         del calls[:]
         spec_r = dict(spec)
@@ -207,10 +214,24 @@ def dry_vs_real(ctx, k):
                                         use_tmp=use_tmp)
             ret_r, dag_r = _run_conductor(study_r, batch_of(which), calls)
         else:
-            ret_r, dag_r = _run_cli(spec_r, root_r, batch_of(which), opts, False)
+            try:
+                ret_r, dag_r = _run_cli(spec_r, root_r, batch_of(which), opts, False)
+            except Exception:  # noqa
+                if dry_failed is not None:
+                    return None
+                raise
     finally:
         ScriptAdapterFactory.factories[which] = real_cls
         ScriptAdapterFactory.factories["local"] = S._saved_local
+    if dry_failed is not None:
+        if entry == "conductor":
+            return None
+        return Case({"kind": "dry-vs-real", "spec": spec, "adapter": which, "hash_ws": hash_ws, "throttle": throttle,
+                     "use_tmp": use_tmp, "entry": entry, "prompt": prompt, "dry_return": dry_failed,
+                     "real_return": ret_r},
+                    [], [], [("all-generated", "`maestro run --dry %s` generated nothing (%s) although the same study "
+                              "is staged and run by `maestro run -y`" % (prompt or "", dry_failed))],
+                    bool(spec.get("global.parameters")))
     side = [c for c in calls_d if c[0] in ("submit", "check_jobs", "cancel_jobs")]
     if side:
         mon.append(("no-side-effects", "the dry run called the adapter: %s" % side[:4]))
